@@ -193,6 +193,11 @@ Section Assoc.
   Definition put (k : name) (x : A) (l : list (name * A)) : list (name * A) := remove k l ++ [(k, x)].
 End Assoc.
 
+Definition smap {A B} (f : A -> B) (s : list (name * A)) : list (name * B) :=
+  map (fun p => (fst p, f (snd p))) s.
+Definition wmap {A B} (f : A -> B) (w : list (list (name * A))) : list (list (name * B)) :=
+  map (smap f) w.
+
 (* ---------------------------------------------------------------- encode (value_to_hdf5 + _set_value) *)
 Definition at_ (t : tid) (p : pyty) : attrs := mkA t p None.
 
@@ -219,10 +224,6 @@ Fixpoint dict_update (ch : list (name * node)) (kvs : list (name * node)) : list
 
 (* match_obj_type on the value's class, then <AttrClass>(value, parent_and_key=...) *)
 Fixpoint encode (v : val) : node :=
-  let fix encs (l : list val) : list node :=
-    match l with [] => [] | x :: r => encode x :: encs r end in
-  let fix enckv (l : list (name * val)) : list (name * node) :=
-    match l with [] => [] | (k, x) :: r => (k, encode x) :: enckv r end in
   match v with
   | VNone => NData (at_ TNone PyNone) (PEmpty DF32)
   | VBool b => NData (at_ TScalar PyBool) (PData DBool [] [NB b])
@@ -238,10 +239,10 @@ Fixpoint encode (v : val) : node :=
   | VStr s => NData (at_ TString PyStr) (PStr s)
   | VArray i d sh x =>
       NData (mkA TArray (match i with INumpy => PyNdarray | IAutograd _ => PyTensor end) (Some i)) (PData d sh x)
-  | VList l => NGroup (at_ TList PyList) (list_extend [] (encs l))
-  | VTuple l => NGroup (at_ TTuple PyTuple) (tuple_fill 0%N (encs l))
-  | VDict l => NGroup (at_ TDict PyDict) (dict_update [] (enckv l))
-  | VDataset l => NGroup (at_ TDataset PyDataset) (enckv l)   (* hdf5.copy of the dataset's group *)
+  | VList l => NGroup (at_ TList PyList) (list_extend [] (map encode l))
+  | VTuple l => NGroup (at_ TTuple PyTuple) (tuple_fill 0%N (map encode l))
+  | VDict l => NGroup (at_ TDict PyDict) (dict_update [] (smap encode l))
+  | VDataset l => NGroup (at_ TDataset PyDataset) (smap encode l)   (* hdf5.copy of the dataset's group *)
   | VOpaque i => NOpaque i
   end.
 
@@ -288,8 +289,7 @@ Fixpoint decode (n : node) : option val :=
       | _ => None
       end
   | NGroup a ch =>
-      let dch := (fix go (l : list (name * node)) : list (name * option val) :=
-                    match l with [] => [] | (k, c) :: r => (k, decode c) :: go r end) ch in
+      let dch := smap decode ch in
       match a_tid a with
       | TList => option_map VList (collect_idx dch (seqN 0%N (length dch)))
       | TTuple => option_map VTuple (collect_idx dch (seqN 0%N (length dch)))
@@ -301,20 +301,16 @@ Fixpoint decode (n : node) : option val :=
 
 (* what a value looks like after one write/read round trip *)
 Fixpoint norm (v : val) : val :=
-  let fix go (l : list val) : list val :=
-    match l with [] => [] | x :: r => norm x :: go r end in
-  let fix gok (l : list (name * val)) : list (name * val) :=
-    match l with [] => [] | (k, x) :: r => (k, norm x) :: gok r end in
   match v with
   | VBool b => VNp DBool (NB b)
   | VInt z => VNp DI64 (NI z)
   | VFloat m e => VNp DF64 (NF m e)
   | VComplex a b c d => VNp DC128 (NC a b c d)
   | VNp DBool n => VArray INumpy DBool [] [n]
-  | VList l => VList (go l)
-  | VTuple l => VTuple (go l)
-  | VDict l => VDict (gok l)
-  | VDataset l => VDataset (gok l)
+  | VList l => VList (map norm l)
+  | VTuple l => VTuple (map norm l)
+  | VDict l => VDict (smap norm l)
+  | VDataset l => VDataset (smap norm l)
   | _ => v
   end.
 
@@ -322,20 +318,16 @@ Fixpoint norm (v : val) : val :=
    becomes (dtype, shape, data); container kinds, key order, strings are kept.  Two values are
    "equal with type sensitivity" iff their views coincide. *)
 Fixpoint pyview (v : val) : val :=
-  let fix go (l : list val) : list val :=
-    match l with [] => [] | x :: r => pyview x :: go r end in
-  let fix gok (l : list (name * val)) : list (name * val) :=
-    match l with [] => [] | (k, x) :: r => (k, pyview x) :: gok r end in
   match v with
   | VBool b => VArray INumpy DBool [] [NB b]
   | VInt z => VArray INumpy DI64 [] [NI z]
   | VFloat m e => VArray INumpy DF64 [] [NF m e]
   | VComplex a b c d => VArray INumpy DC128 [] [NC a b c d]
   | VNp d n => VArray INumpy d [] [n]
-  | VList l => VList (go l)
-  | VTuple l => VTuple (go l)
-  | VDict l => VDict (gok l)
-  | VDataset l => VDataset (gok l)
+  | VList l => VList (map pyview l)
+  | VTuple l => VTuple (map pyview l)
+  | VDict l => VDict (smap pyview l)
+  | VDataset l => VDataset (smap pyview l)
   | _ => v
   end.
 
@@ -344,13 +336,9 @@ Fixpoint nodupb {A} (l : list (name * A)) : bool :=
   match l with [] => true | (k, _) :: r => negb (has k r) && nodupb r end.
 
 Fixpoint wf (v : val) : bool :=
-  let fix go (l : list val) : bool :=
-    match l with [] => true | x :: r => wf x && go r end in
-  let fix gok (l : list (name * val)) : bool :=
-    match l with [] => true | (_, x) :: r => wf x && gok r end in
   match v with
-  | VList l | VTuple l => go l
-  | VDict l | VDataset l => nodupb l && gok l
+  | VList l | VTuple l => forallb wf l
+  | VDict l | VDataset l => nodupb l && forallb (fun kv => wf (snd kv)) l
   | _ => true
   end.
 
@@ -375,8 +363,8 @@ Definition status_eqb (a b : status) : bool :=
 Section Hist.
   Context {A : Type}.
   Variable enc : val -> A.
-  Definition store := list (name * A).
-  Definition world := list store.
+  Local Notation store := (list (name * A)).
+  Local Notation world := (list (list (name * A))).
 
   Fixpoint set_nth (i : nat) (s : store) (w : world) : world :=
     match w, i with
@@ -440,11 +428,6 @@ Section Hist.
                 let (w2, ss) := run r w1 in (w2, s :: ss)
     end.
 End Hist.
-
-Definition smap {A B} (f : A -> B) (s : list (name * A)) : list (name * B) :=
-  map (fun p => (fst p, f (snd p))) s.
-Definition wmap {A B} (f : A -> B) (w : list (list (name * A))) : list (list (name * B)) :=
-  map (smap f) w.
 
 (* reading attribute k of dataset i in a world of trees: getattr(ds, k) then copy_value *)
 Definition read_tree (w : list (list (name * node))) (i : nat) (k : name) : option val :=
